@@ -287,7 +287,7 @@ pub fn run_world_c(plan: &Rc<Plan>, which: &str) -> Result<CHistory, String> {
     });
     let mut hseed_rng = Rng::new(plan.writer.sink_seed);
     let hseed = hseed_rng.next_u64();
-    let (mut items, shape) = history::generate(plan, &core, hseed)?;
+    let (mut items, shape) = history::generate_with_logs(plan, &core, hseed, true)?;
     let abiding = !(which.starts_with("x_"));
     let which = which.trim_start_matches("x_");
     if !abiding {
